@@ -95,6 +95,17 @@ func Other%(Src)s() string     { return "o" }
 func Other%(Snk)s(s string)    {}
 func %(Gen)s[X any](x X) X     { return x }
 
+type W struct {
+	F string
+	G string
+}
+
+type V struct{ A int }
+
+type SCh chan string
+
+func Dump(x any) {}
+
 func (t *%(T)s) %(MSrc)s() string         { return t.F }
 func (t *%(T)s) %(MSnk)s(s string)        { t.G = s }
 func (t *%(T)s) %(MSan)s(s string) string { return s }
@@ -254,6 +265,24 @@ func (u %(U)s) %(MSnk)s(s string)         {}
     add("\tgo i.%s(a)" % n["MSnk"], "extra:GoInvoke", [mk(n["MSnk"])], "sink", iface_pkg=P, iface_type=P + "." + I, iface=I)
     add("\tg := %s%s(a)" % (q, n["Gen"]), "extra:GenericInst", [fnk(n["Gen"])], "source")
     main += ["\tuse(g)", "}", ""]
+    # --- non-call identifiers end to end: field-read / channel-receive / alloc sources and a store sink
+    nc = []
+    main += ["func scNonCall(sch %sSCh) {" % q, "\tw := &%sW{}" % q]
+    main.append("\tx := w.F")
+    l_field = len(main)
+    main.append("\t%sDump(x)" % q)
+    nc.append(("field-read->call", l_field, len(main)))
+    main.append("\tw.G = x")
+    nc.append(("field-read->store", l_field, len(main)))
+    main.append("\tv := <-sch")
+    l_recv = len(main)
+    main.append("\t%sDump(v)" % q)
+    nc.append(("recv->call", l_recv, len(main)))
+    main.append("\tp := &%sV{}" % q)
+    l_alloc = len(main)
+    main.append("\t%sDump(p)" % q)
+    nc.append(("alloc->call", l_alloc, len(main)))
+    main += ["}", ""]
     # --- an invoke whose interface method has no package (error.Error): FindSafeCalleePkg yields nothing
     main += ["type errT struct{}", "", "func (errT) Error() string { return \"e\" }", "",
              "func scErr(e error, s string) string {", "\tdefer e.Error()", "\treturn e.Error() + s", "}", ""]
@@ -295,8 +324,9 @@ func (u %(U)s) %(MSnk)s(s string)         {}
     main += ["func main() {", "\tt := &%s{}" % Tq, "\tscStatic()", "\tscMethod()", "\tscInvoke(t)", "\tscInvokeJ(t)",
              "\tscFuncValue()", "\tscFuncPhi()", "\tscMethodValue()", "\tscMethodExpr()", "\tscDeferred()",
              "\tscDeferredM()", "\tscGo()", "\tscGoM()", "\tscDeferSink()", "\tscGoSink()", "\tscClosure()",
-             "\tscClosureM(t)", "\tscOther(t, %s%s{})" % (q, U), "\tscOps()", "\tuse(scErr(errT{}, \"x\"))", "}", ""]
+             "\tscClosureM(t)", "\tscOther(t, %s%s{})" % (q, U), "\tscOps()", "\tuse(scErr(errT{}, \"x\"))", "\tscNonCall(make(%sSCh, 1))" % q, "}", ""]
     open(os.path.join(d, "main.go"), "w").write("\n".join(main))
+    lay.noncall = nc
     return scen, ops
 
 
@@ -554,7 +584,18 @@ def prepare_layout(chk, li, work, tier):
     cfgp = os.path.join(work, "config%d.yaml" % li)
     open(cfgp, "w").write(config_json(taint, slicing))
     e2ep = os.path.join(work, "e2e%d.yaml" % li)
-    open(e2ep, "w").write(config_json([e2e], []))
+    # the end-to-end configuration has three problems: the NON-CALL identifiers (field read, channel receive, allocation
+    # as sources, field store as sink) come first, the call problem in the middle, a decoy last - the position of a
+    # problem in the configuration must not matter
+    tp = "^" + esc(lay.pn) + "$"
+    noncall = {"source": [{"package": tp, "type": "^\\*W$", "field": "^F$"},
+                          {"package": tp, "type": "^SCh$", "kind": "channel receive"},
+                          {"package": tp, "type": "^\\*V$"}],
+               "sink": [{"package": tp, "type": "^\\*W$", "field": "^G$", "kind": "store"},
+                        {"package": "^" + esc(P) + "$", "method": "^Dump$"}], "sanitizer": [], "validator": []}
+    decoy = {"source": [{"package": "nomatch", "method": "nomatch"}], "sink": [{"package": "nomatch", "method": "nomatch"}],
+             "sanitizer": [], "validator": []}
+    open(e2ep, "w").write(config_json([noncall, e2e, decoy], []))
     dump = os.path.join(work, "dump%d.json" % li)
     rc, out = vlib.sh([os.path.join(vlib.BIN, "c04dump"), "-dir", d, "-config", cfgp, "-e2e", e2ep, "-o", dump], timeout=900)
     return dict(lay=lay, d=d, scen=scen, opsx=opsx, taint=taint, slicing=slicing, e2e=e2e, cfgp=cfgp, e2ep=e2ep, dump=dump,
